@@ -1144,3 +1144,25 @@ def simulate(facts, body, inputs, maxiter=64, extra_atoms=None):
         except (Unsupported, EvalPanic, KeyError, TypeError):
             ret = r.ret
     return events, r.end, ret
+
+
+def is_some_of(facts, body):
+    """If the (loop-free) function returns `X.is_some()` in any spelling -- the combinator, a `match` on X producing
+    true / false, `X != None` -- return the term X (canonical), else None."""
+    rows = [r for r in summarize(facts, body) if r.end == 'return']
+    X = None
+    for r in rows:
+        if r.ret not in (('c', 0), ('c', 1)):
+            return None
+        ds = [(c[1], v) for c, v in r.conds if c[0] == 'discr']
+        if len(ds) < 1:
+            return None
+        x, v = ds[-1]
+        some = (v == 1)
+        if (r.ret == ('c', 1)) != some:
+            return None
+        if X is None:
+            X = x
+        elif cstr(X) != cstr(x):
+            return None
+    return canon(X) if X is not None and len(rows) >= 2 else None
